@@ -17,7 +17,7 @@ TARGETS = ['C12/Props.vo', 'C12/Corr.vo']
 MODEL_TARGETS = ['C12/Corr.vo']
 PROPS_FILE = 'C12/Props.v'
 PROPS_MODULE = 'QV.C12.Props'
-CORR_IMPORTS = ['QV.C12.Model', 'QV.C12.Corr']
+CORR_IMPORTS = ['QV.C12.Model', 'QV.C12.ModelT', 'QV.C12.Corr']
 CHECK_CORR = 'check_corr'
 CHECK_SPEC = 'check_spec'
 SHARD = 120
@@ -330,7 +330,7 @@ def _mixsame_subs(rng, vs, num_types=('int', 'float', 'time')):
     scal = [x for x in vs if x in X.SCALARS or x == 't']
     pool = scal if scal and (not ints or rng.random() < 0.8) else ints
     int_sorted = pool is ints
-    ys = rng.sample(pool, rng.choice([1, 1, 2]) if len(pool) > 1 else 1)
+    ys = rng.sample(pool, rng.choice([1, 1, 2]) if len(pool) > 1 and not int_sorted else 1)
     names = X.INTS if int_sorted else X.SCALARS
     others = [x for x in names if x not in ys]
     inside = [x for x in others if x in vs]
@@ -484,6 +484,16 @@ def _guard(fn):
         return {'err': 'other:' + type(e).__name__}
 
 
+def _readback_items(ev):
+    out = []
+    for item in getattr(ev, '_expression_items', []):
+        try:
+            out.append(X.from_sympy(item))
+        except Exception:
+            out.append(None)
+    return out
+
+
 def _readback(ex):
     """the implementation's own (auto-simplified) formula as AST, or None when it leaves the AST"""
     try:
@@ -579,6 +589,13 @@ def run_impl(case):
                      'floordiv': operator.floordiv}[op]
                 r = f(other, ea) if case['swap'] else f(ea, other)
             if not isinstance(r, ExpressionScalar):
+                # TimeType <op> closed expression: the TimeType operator converts the expression to a number and
+                # returns a number -- accepted, its value is what is compared
+                # (TimeType // TimeType is a gmpy2 mpz: TimeType's own operator table, property C14)
+                if type(r).__name__ in ('TimeType', 'mpz') and not ea.variables and 'num' in case['b'] \
+                        and case['b']['num']['ty'] == 'time' and case['swap']:
+                    a_vars.extend(ea.variables)
+                    return int(r) if type(r).__name__ == 'mpz' else r
                 raise TypeError('operator returned %s' % type(r).__name__)
             a_vars.extend(ea.variables)
             rb.append(_readback(r))
@@ -616,9 +633,12 @@ def run_impl(case):
         strs = [X.to_str(e) for e in case['exprs']]
         p = case['path']
 
+        rbs = []
+
         def run():
             import numpy as np
             ev = ExpressionVector(strs)
+            rbs.extend(_readback_items(ev))
             if p == 'in_scope':
                 return ev.evaluate_in_scope(kw)
             if p == 'numeric':
@@ -634,7 +654,8 @@ def run_impl(case):
                 ev.evaluate_in_scope(kw)   # warm the per-item lambdas first
                 return np.array([ev[i].evaluate_in_scope(kw) for i in range(len(strs))])
             raise ValueError(p)
-        return {'obs': _guard(run)}
+        o = _guard(run)
+        return {'obs': o, 'impl_exprs': rbs}
     if k == 'vecpartial':
         kw = {x: _py_value(tv) for x, tv in case['scope'].items()}
         strs = [X.to_str(e) for e in case['exprs']]
@@ -644,8 +665,11 @@ def run_impl(case):
             ev2 = ExpressionVector(strs).evaluate_symbolic(subs)
             if not isinstance(ev2, ExpressionVector):
                 raise TypeError('evaluate_symbolic changed the kind of expression')
+            rbs.extend(_readback_items(ev2))
             return ev2.evaluate_in_scope(kw)
-        return {'obs': _guard(run)}
+        rbs = []
+        o = _guard(run)
+        return {'obs': o, 'impl_exprs': rbs}
     raise ValueError(k)
 
 
@@ -666,7 +690,7 @@ def _g_obs(o):
     return '(OErr %s)' % k
 
 
-def _tol(e, scope, path):
+def _tol(e, scope, path, impl_e=None):
     """is this call inexact by nature?  (see ASSUMPTIONS)"""
     sc, vc, arr = X.split_scope(scope)
     if path == 'exact' and _types_of(scope) <= {'int', 'time', 'arri'} and not X.has_fn(e) and not _has_float_const(e):
@@ -675,9 +699,21 @@ def _tol(e, scope, path):
     tol, fnt = False, []
     for p in pts:
         a = X.analyse(e, p, vc)
-        tol = tol or a['inexact']
+        tol = tol or a['inexact'] or _impl_inexact(impl_e, p, vc)
         fnt += a['fnt']
     return tol, fnt
+
+
+def _impl_inexact(impl_e, sc, vc):
+    """sympy re-associates products and folds constants (a*0.25/(-3/b) -> -0.0833333333333333*a*b): the float
+    evaluation is also inexact by nature when the implementation's OWN formula has an intermediate value that no
+    double represents"""
+    if impl_e is None:
+        return False
+    try:
+        return bool(X.analyse(impl_e, sc, vc)['inexact'])
+    except Exception:
+        return False
 
 
 def _g_fnt(fnt):
@@ -689,23 +725,44 @@ def _g_fnt(fnt):
     return '[%s]' % '; '.join(out)
 
 
-def _g_call(e, scope, path, o):
+def _g_call(e, scope, path, o, impl_e=None):
     sc, vc, arr = X.split_scope(scope)
-    tol, fnt = _tol(e, scope, path)
+    tol, fnt = _tol(e, scope, path, impl_e)
     gsc = '[%s]' % '; '.join('(%d%%N, %s)' % (X.NID[x], X.gq(v)) for x, v in sorted(sc.items()))
     gvc = '[%s]' % '; '.join('(%d%%N, [%s])' % (X.NID[x], '; '.join(X.gq(v) for v in l)) for x, l in sorted(vc.items()))
     return '(mkCall %s %s %s %s %s)' % (gsc, gvc, _g_fnt(fnt), vlib.gbool(tol), _g_obs(o))
 
 
-def _g_arr_case(e, scope, o):
+def _g_arr_case(e, scope, o, impl_e=None):
     sc, vc, arr = X.split_scope(scope)
-    tol, fnt = _tol(e, scope, 'array')
+    tol, fnt = _tol(e, scope, 'array', impl_e)
     n = len(next(iter(arr.values())))
     items = ['(%d%%N, VQ %s)' % (X.NID[x], X.gq(v)) for x, v in sorted(sc.items())]
     items += ['(%d%%N, VArr [%s])' % (X.NID[x], '; '.join(X.gq(v) for v in l)) for x, l in sorted(arr.items())]
     gvc = '[%s]' % '; '.join('(%d%%N, [%s])' % (X.NID[x], '; '.join(X.gq(v) for v in l)) for x, l in sorted(vc.items()))
     return '(CArr %s [%s] %s %s %d%%nat %s %s)' % (X.to_coq(e), '; '.join(items), gvc, _g_fnt(fnt), n, vlib.gbool(tol),
                                                    _g_obs(o))
+
+
+def _typed_applicable(c, impl_e):
+    """exact-mode call with exact inputs on a formula the typed model covers (no decimal literal, no sin/cos/exp)"""
+    return c['path'] == 'exact' and impl_e is not None and _types_of(c['scope']) <= {'int', 'npint', 'time', 'arri'} \
+        and not _has_float_const(impl_e) and not X.has_fn(impl_e)
+
+
+def _g_exact_typed(e, c, o, impl_e):
+    if not _typed_applicable(c, impl_e):
+        return None
+    sc, vc, arr = X.split_scope(c['scope'])
+    if arr:
+        return None
+    tolf = bool(X.analyse(e, sc, vc)['inexact']) or _impl_inexact(impl_e, sc, vc)
+    tsc, tvc = X.typed_scope(c['scope'])
+    gty = {'int': 'TInt', 'time': 'TTime', 'float': 'TFloat'}
+    gsc = '[%s]' % '; '.join('(%d%%N, (%s, %s))' % (X.NID[x], X.gq(v), gty[t]) for x, (v, t) in sorted(tsc.items()))
+    gvc = '[%s]' % '; '.join('(%d%%N, ([%s], %s))' % (X.NID[x], '; '.join(X.gq(v) for v in l), gty[t])
+                             for x, (l, t) in sorted(tvc.items()))
+    return '(CExactTy %s %s %s %s %s)' % (X.to_coq(impl_e), gsc, gvc, vlib.gbool(tolf), _g_obs(o))
 
 
 def _bad(obs):
@@ -735,9 +792,13 @@ def to_coq(case, obs):
             if o.get('err', '').startswith('nonnumeric') and 'Fraction' in o['err'] and 'frac' in _types_of(c['scope']):
                 units.append('(CEval %s %s [])' % (X.to_coq(e), ivars))    # Fractions are rejected by type, explicitly
             elif arr:
-                units.append(_g_arr_case(e, c['scope'], o))
+                units.append(_g_arr_case(e, c['scope'], o, obs.get('impl_expr')))
             else:
-                units.append('(CEval %s %s [%s])' % (X.to_coq(e), ivars, _g_call(e, c['scope'], c['path'], o)))
+                units.append('(CEval %s %s [%s])' % (X.to_coq(e), ivars,
+                                                     _g_call(e, c['scope'], c['path'], o, obs.get('impl_expr'))))
+                t = _g_exact_typed(e, c, o, obs.get('impl_expr'))
+                if t is not None:
+                    units.append(t)
         return '[%s]' % '; '.join(units)
     if _bad(obs.get('obs', {})):
         return '[CCrash]'
@@ -751,18 +812,18 @@ def to_coq(case, obs):
             full = ['b', 'add', full, t]
         # the inexact flag is computed on formula and substituted terms together
         return '[CPartial %s [%s] %s]' % (X.to_coq(e), '; '.join(subs),
-                                          _g_call_partial(case, full, obs['obs']))
+                                          _g_call_partial(case, full, obs['obs'], obs.get('impl_expr')))
     if k == 'build':
         a, b = case['a'], _b_expr(case)
         if case['op'] in ('neg', 'pos'):
-            call = _g_call(a, case['scope'], case['path'], obs['obs'])
+            call = _g_call(a, case['scope'], case['path'], obs['obs'], obs.get('impl_expr'))
             if case['op'] == 'neg':
                 return '[CNeg %s %s]' % (X.to_coq(a), call)
             return '[CEval %s [] [%s]]' % (X.to_coq(a), call)
         l, r = (b, a) if case['swap'] else (a, b)
         whole, exact = _build_view(case)
         # a float operand makes the formula a float formula (Fraction / numpy ints: not exact-typed either)
-        call = _g_call(whole, case['scope'], 'exact' if exact else 'in_scope', obs['obs'])
+        call = _g_call(whole, case['scope'], 'exact' if exact else 'in_scope', obs['obs'], obs.get('impl_expr'))
         return '[CBuild %s %s %s %s]' % ({'add': 'OpAdd', 'sub': 'OpSub', 'mul': 'OpMul', 'div': 'OpDiv',
                                           'floordiv': 'OpFloorDiv'}[case['op']], X.to_coq(l), X.to_coq(r), call)
     if k == 'cmp':
@@ -778,13 +839,15 @@ def to_coq(case, obs):
         for e in es[1:]:
             allv = ['b', 'add', allv, e]
         sc, vc, _ = X.split_scope(case['scope'])
-        tol = any(X.analyse(e, sc, vc)['inexact'] for e in es)
+        tol = any(X.analyse(e, sc, vc)['inexact'] for e in es) or \
+            any(_impl_inexact(ie, sc, vc) for ie in obs.get('impl_exprs') or [])
         gsc = '[%s]' % '; '.join('(%d%%N, %s)' % (X.NID[x], X.gq(v)) for x, v in sorted(sc.items()))
         call = '(mkCall %s [] [] %s %s)' % (gsc, vlib.gbool(tol), _g_obs(obs['obs']))
         return '[CVec [%s] %s]' % ('; '.join(X.to_coq(e) for e in es), call)
     if k == 'vecpartial':
         sc, vc, _ = X.split_scope(case['scope'])
-        tol = any(X.analyse(se, sc, vc)['inexact'] for se in _vecpartial_view(case))
+        tol = any(X.analyse(se, sc, vc)['inexact'] for se in _vecpartial_view(case)) or \
+            any(_impl_inexact(ie, sc, vc) for ie in obs.get('impl_exprs') or [])
         gsc = '[%s]' % '; '.join('(%d%%N, %s)' % (X.NID[x], X.gq(v)) for x, v in sorted(sc.items()))
         call = '(mkCall %s [] [] %s %s)' % (gsc, vlib.gbool(tol), _g_obs(obs['obs']))
         subs = ['(%d%%N, %s)' % (X.NID[x], X.to_coq(t)) for x, t in sorted(_subs_ast(case).items())]
@@ -803,11 +866,11 @@ def _partial_view(case):
     return se, (case['path'] == 'exact' and types <= {'int', 'time', 'arri'} and not _has_float_const(se))
 
 
-def _g_call_partial(case, full, o):
+def _g_call_partial(case, full, o, impl_e=None):
     se, exact = _partial_view(case)
     sc, vc, _ = X.split_scope(case['scope'])
     a = X.analyse(se, sc, vc)
-    tol = (not exact) and a['inexact']
+    tol = (not exact) and (a['inexact'] or _impl_inexact(impl_e, sc, vc))
     gsc = '[%s]' % '; '.join('(%d%%N, %s)' % (X.NID[x], X.gq(v)) for x, v in sorted(sc.items()))
     gvc = '[%s]' % '; '.join('(%d%%N, [%s])' % (X.NID[x], '; '.join(X.gq(v) for v in l)) for x, l in sorted(vc.items()))
     return '(mkCall %s %s [] %s %s)' % (gsc, gvc, vlib.gbool(tol), _g_obs(o))
@@ -851,6 +914,10 @@ def histogram_keys(case, obs):
             keys.append('path:' + c['path'])
             keys.append('types:' + '+'.join(sorted(_types_of(c['scope']))))
             keys.append('obs:' + _okind(o))
+            if _typed_applicable(c, obs.get('impl_expr')):
+                keys.append('typed_model_exact_calls')
+                if _exact_mode_float(obs['impl_expr'], c['scope']):
+                    keys.append('typed_model_predicts_float')
             try:
                 tol, _ = _tol(case['expr'], c['scope'], c['path'])
                 keys.append('inexact_calls' if tol else 'exact_calls')
@@ -926,10 +993,25 @@ def _exact_mode_float(e, scope, extra_types=()):
 
 
 def _closed_floordiv(e):
-    return any(s[0] == 'b' and s[1] == 'floordiv' and not X.fv(s) and not X.fvv(s) for s in X.subterms(e))
+    """sympy-number-floordiv, the class: the formula contains a floor division of two NUMBERS (closed operands) on which
+    the pinned sympy's Number.__floordiv__ differs from floor(x / y) (asked of sympy itself: it does for a non-integer
+    Rational divided by a number with a negative non-integer quotient)"""
+    import math
+    import sympy
+    for s in X.subterms(e):
+        if s[0] == 'b' and s[1] == 'floordiv' and not X.fv(s) and not X.fvv(s):
+            try:
+                x, y = X.py_eval(s[2], {}, {}), X.py_eval(s[3], {}, {})
+                if y != 0 and int(sympy.Rational(x.numerator, x.denominator) //
+                                  sympy.Rational(y.numerator, y.denominator)) != math.floor(x / y):
+                    return True
+            except Exception:
+                pass
+    return False
 
 
-def _classify_call(e, kinds, scope, path, route, o, exact_required, extra_types=(), symbolic=False, impl_e=None):
+def _classify_call(e, kinds, scope, path, route, o, exact_required, extra_types=(), symbolic=False, impl_e=None,
+                   parsed_parts=None):
     sc, vc, arr = X.split_scope(scope)
     types = _types_of(scope) | set(extra_types)
     if arr:
@@ -962,8 +1044,11 @@ def _classify_call(e, kinds, scope, path, route, o, exact_required, extra_types=
         return 'timetype-piecewise'
     if 'value' not in a:
         return None
-    if _closed_floordiv(e) and 'val' in o:
-        return 'sympy-number-floordiv'
+    if 'time' in types and 'ite' in kinds and o.get('ty') in ('TimeType', 'float', 'float64') and \
+            _float_close(o, a['value']):
+        return 'timetype-piecewise'      # the TimeType went through numpy.select as a float: inexact result
+    if any(_closed_floordiv(p) for p in ([e] if parsed_parts is None else parsed_parts)) and 'val' in o:
+        return 'sympy-number-floordiv'      # only inside PARSED text; the operator route builds floor(a / b)
     if exact_required and _float_close(o, a['value']) and o.get('ty') in ('float', 'float64', 'TimeType') and \
             _exact_mode_float(impl_e if impl_e is not None else e, scope, extra_types):
         return 'exact-int-div'
@@ -989,6 +1074,8 @@ def classify(case, obs):
             for c, o in zip(case['calls'], obs['obs']):
                 exact = c['path'] == 'exact' and _types_of(c['scope']) <= {'int', 'time', 'arri'} and \
                     not X.has_fn(e) and not _has_float_const(e)
+                # sympy folded the decimal literals away (floor(-0.375) -> -1): the typed unit case requires exactness
+                exact = exact or (_typed_applicable(c, obs.get('impl_expr')) and not X.split_scope(c['scope'])[2])
                 ids.add(_classify_call(e, X.kinds(e), c['scope'], c['path'], case['route'], o, exact,
                                        impl_e=obs.get('impl_expr')))
             ids.discard('ok')
@@ -1023,16 +1110,18 @@ def classify(case, obs):
                 ids.discard('ok')
                 return sorted(ids)[0] if ids and None not in ids else None
             return None
+        if k == 'cmp':
+            if 'ret' in obs and (_closed_floordiv(case['a']) or _closed_floordiv(case['b'])):
+                return 'sympy-number-floordiv'
+            return None
         if k == 'build':
             o = obs['obs']
-            if 'num' in case['b'] and case['b']['num']['ty'] == 'time' and case['swap'] and o.get('err') == 'other:TypeError':
-                return 'timetype-left-operand'
             whole, exact = _build_view(case)
-            if case['op'] == 'floordiv' and 'num' in case['b'] and obs.get('a_closed') and 'val' in o:
-                return 'sympy-number-floordiv'
             r = _classify_call(whole, X.kinds(whole), case['scope'], case['path'], 'str', o, exact,
-                               extra_types=[case['b']['num']['ty']] if 'num' in case['b'] else [],
-                               impl_e=obs.get('impl_expr'))
+                               extra_types=[case['b']['num']['ty']]
+                               if 'num' in case['b'] and case['op'] not in ('neg', 'pos') else [],
+                               impl_e=obs.get('impl_expr'),
+                               parsed_parts=[case['a']] + ([case['b']['expr']] if 'expr' in case['b'] else []))
             return None if r == 'ok' else r
     except Exception:
         return None
